@@ -35,17 +35,21 @@ Proof.
   - (* OPush *)
     destruct (fresh_src s) eqn:Hs.
     + cbn [admissible] in Hadm. exact (exec_offer c w st a v s None Hwf HW Hfuse Hs Hadm r Hr).
-    + destruct a; [|discriminate]. cbn [exec].
-      destruct s; try discriminate;
-        [apply (exec_offer_wrong c w st v _ k _ r HW Hfuse (or_introl eq_refl) Hr)
-        |apply (exec_offer_wrong c w st v _ k _ r HW Hfuse (or_intror eq_refl) Hr)].
+    + destruct s; try (destruct a; discriminate).
+      * destruct a; [|discriminate]. cbn [exec]. apply (exec_offer_wrong c w st v _ k _ r HW Hfuse (or_introl eq_refl) Hr).
+      * destruct a; [|discriminate]. cbn [exec]. apply (exec_offer_wrong c w st v _ k _ r HW Hfuse (or_intror eq_refl) Hr).
+      * cbn [admissible] in Hadm.
+        assert (Hr' : sp_offer_lazy c st (unext (wuw w)) v None vid idx = Some r) by (destruct a; exact Hr).
+        exact (exec_offer_lazy c w st a v None depth vid idx r Hwf HW Hfuse Hadm Hr').
   - (* OInsert *)
     destruct (fresh_src s) eqn:Hs.
     + cbn [admissible] in Hadm. exact (exec_offer c w st a v s (Some idx) Hwf HW Hfuse Hs Hadm r Hr).
-    + destruct a; [|discriminate]. cbn [exec].
-      destruct s; try discriminate;
-        [apply (exec_offer_wrong c w st v _ k _ r HW Hfuse (or_introl eq_refl) Hr)
-        |apply (exec_offer_wrong c w st v _ k _ r HW Hfuse (or_intror eq_refl) Hr)].
+    + destruct s; try (destruct a; discriminate).
+      * destruct a; [|discriminate]. cbn [exec]. apply (exec_offer_wrong c w st v _ k _ r HW Hfuse (or_introl eq_refl) Hr).
+      * destruct a; [|discriminate]. cbn [exec]. apply (exec_offer_wrong c w st v _ k _ r HW Hfuse (or_intror eq_refl) Hr).
+      * cbn [admissible] in Hadm.
+        assert (Hr' : sp_offer_lazy c st (unext (wuw w)) v (Some idx) vid idx0 = Some r) by (destruct a; exact Hr).
+        exact (exec_offer_lazy c w st a v (Some idx) depth vid idx0 r Hwf HW Hfuse Hadm Hr').
   - (* OPop *)
     cbn [admissible] in Hadm.
     exact (exec_take c w st a v TPop 0 k r Hwf HW Hfuse (fun _ => eq_refl) Hadm Hr).
@@ -196,6 +200,10 @@ Proof.
 Qed.
 Lemma sp_look_nx c st nx o r : sp_look c st nx o = Some r -> nx <= s_nx r /\ s_out r < 100.
 Proof. unfold sp_look. intros H. crush H; cbn; split; lia. Qed.
+Lemma sp_offer_wrong_nx c st nx v k r : sp_offer_wrong c st nx v k = Some r -> nx <= s_nx r /\ s_out r < 100.
+Proof. unfold sp_offer_wrong. intros H. crush H; cbn; split; lia. Qed.
+Lemma sp_offer_lazy_nx c st nx v i src sidx r : sp_offer_lazy c st nx v i src sidx = Some r -> nx <= s_nx r /\ s_out r < 100.
+Proof. unfold sp_offer_lazy. cbv zeta. intros H. crush H; cbn; split; lia. Qed.
 Lemma sp_new_nx c st nx dst bk r : sp_new c st nx dst bk = Some r -> nx <= s_nx r /\ s_out r < 100.
 Proof. unfold sp_new. intros H. crush H; cbn; split; lia. Qed.
 Lemma sp_clone_nx c st nx v dst r : sp_clone c st nx v dst = Some r -> nx <= s_nx r /\ s_out r < 100.
@@ -211,7 +219,10 @@ Proof.
     try (apply sp_look_nx in H; exact H);
     try (apply sp_take_nx in H; exact H);
     try (destruct (fresh_src s); [apply sp_offer_nx in H; exact H|];
-         destruct a; try discriminate; destruct s; try discriminate; unfold sp_offer_wrong in H; crush H; cbn; split; lia);
+         destruct s; try (destruct a; discriminate);
+         [destruct a; [|discriminate]; apply sp_offer_wrong_nx in H; exact H
+         |destruct a; [|discriminate]; apply sp_offer_wrong_nx in H; exact H
+         |destruct a; apply sp_offer_lazy_nx in H; exact H]);
     try (destruct (resizable bk); [apply sp_new_nx in H; exact H|discriminate]);
     try (destruct (sp_take c st nx v k (match k with TPop => 0 | _ => idx end) KDrop) as [r0|] eqn:E0; [|discriminate];
          apply sp_take_nx in E0; injection H as <-; destruct (s_out r0 =? 0); cbn [s_nx s_out]; lia);
@@ -525,7 +536,10 @@ Definition ex_ops : list op :=
     OWrite 0 9 0; OWrite 1 9 3; OSwap 0 9 0 10 0; OSwap 0 9 0 10 1; OGet Erased 9 0; OGet Erased 10 0;
     OPush Erased 9 SWrap; OPush Erased 9 SWrap; OPush Erased 9 SWrap;
     (* drain(..).nth(1), then nth_back(1): the items passed over are destroyed, not reported *)
-    ODrain Erased 9 BUnbounded BUnbounded [(true, KSkip); (true, KDown); (false, KSkip); (false, KDrop)] FinDrop ].
+    ODrain Erased 9 BUnbounded BUnbounded [(true, KSkip); (true, KDown); (false, KSkip); (false, KDrop)] FinDrop;
+    (* lazy clones as sources: one Clone per consumption, refused offers clone nothing *)
+    OPush Erased 9 (SLazy 1 10 0); OInsert Typed 9 0 (SLazy 3 10 0); OInsert Erased 9 7 (SLazy 1 10 0); OPush Erased 9 (SLazy 1 10 5);
+    OPush Erased 8 (SLazy 1 10 0) ].
 
 Example ex_spec_defined : exists rs, spec_run ex_cfg [] 1 ex_ops = Some rs /\ length rs = length ex_ops.
 Proof. eexists. split; [vm_compute; reflexivity|reflexivity]. Qed.
@@ -550,7 +564,8 @@ Example ex_outcomes :
      (0,0,[1; 0; 1; 0; 1; 3; 1; 1; 3; 1; 0; 1; 0; 1; 0]); (2,2,[]); (2,1,[]); (0,0,[0]);
      (0,0,[]); (0,0,[]); (0,0,[]); (0,0,[]); (2,2,[]); (2,2,[]); (0,0,[1; 3; 0; 0; 0]); (0,0,[1; 3; 0; 0; 0]); (2,1,[]);
      (0,0,[36]); (2,1,[]); (0,0,[]); (2,1,[]); (0,0,[37]); (0,0,[40]);
-     (0,0,[]); (0,0,[]); (0,0,[]); (0,0,[4; 1; 41; 2; 41; 1; 42; 0])].
+     (0,0,[]); (0,0,[]); (0,0,[]); (0,0,[4; 1; 41; 2; 41; 1; 42; 0]);
+     (0,0,[]); (0,0,[]); (2,1,[]); (2,1,[]); (2,3,[])].
 Proof. vm_compute. reflexivity. Qed.
 
 (** ** Corollaries in the vocabulary of the properties *)
